@@ -85,6 +85,25 @@ def arithmetic(thorough):
                 reqs.append(R("GET", S("ka")))
                 reqs.append(R(cmd, S("ka"), *([d] if d else [])))
                 out.append(scen(reqs))
+    # wide requests (more fields than any small-request fast path handles): repeated and missing fields, request order
+    fields = ["f%02d" % i for i in range(45)]
+    hm = [x for i, f in enumerate(fields[:40]) for x in (S(f), S("v%d" % (i % 3 + 1)))]
+    for n in (31, 32, 33, 40, 70):
+        want = [fields[(i * 7) % 44] for i in range(n)]           # wraps around: repeats, and f40..f43 are missing
+        want[n // 2] = want[0]
+        want[n - 1] = want[1]
+        out.append(scen([R("HMSET", S("ha"), *hm), R("HMGET", S("ha"), *[S(f) for f in want]), R("HMGET", S("missing"), *[S(f) for f in want]),
+                         R("HMSET", S("ha"), *(hm[:20] + [S("f03"), S("s:bin")] + hm[:6])), R("HMGET", S("ha"), *[S(f) for f in want]),
+                         R("HLEN", S("ha")), R("HKEYS", S("ha")), R("HVALS", S("ha"))]))
+        ks = ["k%02d" % ((i * 5) % 37) for i in range(n)]
+        out.append(scen([R("MSET", *[x for i in range(30) for x in (S("k%02d" % i), S("v%d" % (i % 3 + 1)))]), R("MGET", *[S(k) for k in ks]),
+                         R("MSETNX", *[x for k in ks for x in (S(k + "n"), S("v1"))]), R("MGET", *[S(k + "n") for k in ks])]))
+    # derived write commands on a key that is about to expire: the remaining life is kept to the millisecond
+    for cmd, extra in (("INCR", []), ("DECR", []), ("INCRBY", [I(5)]), ("DECRBY", [I(5)]), ("APPEND", [S("7")])):
+        for px in (400, 999, 1500):
+            sc = scen([R("SET", S("ka"), raw(b"5"), W("PX"), I(px)), R(cmd, S("ka"), *extra), R("GET", S("ka")), R("TTL", S("ka")),
+                       R("SLEEP", I(px + 150)), R("GET", S("ka")), R("EXISTS", S("ka")), R(cmd, S("ka"), *extra), R("TTL", S("ka"))])
+            out.append(storelib.split_sleeps(sc))
     # CONFIG SET / GET: request order, last value wins
     out.append(scen([R("CONFIG", W("SET"), S("c:save"), S("v1")), R("CONFIG", W("GET"), S("c:save")),
                      R("CONFIG", W("SET"), S("c:appendonly"), S("v2"), S("c:save"), S("v3")),
